@@ -109,6 +109,7 @@ def _rules():
         ],
         "text-units": [
             lambda R, c, rid: shared.text_units(R, c, rid),
+            lambda R, c, rid: shared.format_replacement(R, c, rid),
         ],
         "update-events": [
             lambda R, c, rid: _as(R, c, rid, c07.rule_b, "C07.b"),
